@@ -20,8 +20,8 @@ else
   git -C /repo checkout -- .
   rm -rf /tmp/mutant-evidence.$$
 fi
-grep -E "^(VIOLATION|KNOWN-FINDING|INCONCLUSIVE|C[0-9]+ )" $OUT | head -8
-grep -E "^  key=" $OUT | head -8
+grep -a -E "^(VIOLATION|KNOWN-FINDING|INCONCLUSIVE|C[0-9]+ )" $OUT | head -8
+grep -a -E "^  key=" $OUT | head -8
 rm -f $OUT
 echo "exit=$RC"
 exit $RC
